@@ -668,9 +668,12 @@ func (r *Runner) exec(idx int, c Cmd) (Obs, obj) {
 				r.rndLog = append(r.rndLog, rndUse{normal, c.Dims[1]})
 			}
 		}
+		// the configuration struct stays the caller's
+		conf.Inputs, conf.Outputs = 991, 997
 		return Obs{Kind: "ok"}, obj{kind: "fc", fc: fc}
 	case OpFCSet:
 		fc := r.env[c.T].fc
+		scribbleWeights(fc.Weights())
 		ws := fc.Weights()
 		if c.Flag {
 			*ws[1].Value = r.tens(c.Z)
@@ -746,10 +749,18 @@ func (r *Runner) exec(idx int, c Cmd) (Obs, obj) {
 		if c.HasA {
 			conf = &optimizers.SGDConfig{LearningRate: c.A.F()}
 		}
-		return Obs{Kind: "ok"}, obj{kind: "sgd", sgd: optimizers.NewSGD(conf)}
+		sgd := optimizers.NewSGD(conf)
+		if conf != nil {
+			// the configuration struct stays the caller's: scribbling over it afterwards must not matter
+			conf.LearningRate = 977.25
+		}
+		return Obs{Kind: "ok"}, obj{kind: "sgd", sgd: sgd}
 	case OpSGDUpdate:
 		sgd := r.env[c.T].sgd
 		var ptr *tensor.Tensor
+		if c.K == 0 || c.K == 1 {
+			scribbleWeights(r.env[c.Z].fc.Weights())
+		}
 		switch c.K {
 		case 0:
 			ptr = r.env[c.Z].fc.Weights()[0].Value
@@ -809,3 +820,15 @@ func (r *Runner) exec(idx int, c Cmd) (Obs, obj) {
 func ruleCount() int64 { return tensor.VerifRuleCount() }
 
 var _ = math.Inf
+
+
+// the list returned by Weights() belongs to the caller: reordering / truncating it must not affect the layer
+func scribbleWeights(ws []layers.Weight) {
+	if len(ws) >= 2 {
+		ws[0], ws[1] = ws[1], ws[0]
+		ws[0].Trainable = !ws[0].Trainable
+	}
+	for i := range ws {
+		ws[i].Value = nil
+	}
+}
